@@ -35,18 +35,32 @@ func Execute(c Case, r *pbt.Rec, prop int) error {
 	if err := validate(c); err != nil {
 		return pbt.Failf("harness", "malformed case: %v", err)
 	}
+	x := newExec(c, r, prop)
+	defer x.d.Close()
+	if err, _ := x.runSteps(); err != nil {
+		return err
+	}
+	return nil
+}
+
+func newExec(c Case, r *pbt.Rec, prop int) *exec {
 	d := Open(c.Keys)
-	defer d.Close()
-	m := NewModel(len(c.Keys))
-	x := &exec{c: c, r: r, d: d, m: m, prop: prop,
+	x := &exec{c: c, r: r, d: d, m: NewModel(len(c.Keys)), prop: prop,
 		setGen: make([]int, len(c.Keys)), remGen: make([]int, len(c.Keys)), lockState: make([]int, len(c.Keys))}
 	for i := range x.setGen {
 		x.setGen[i], x.remGen[i] = -1, -1
 	}
+	return x
+}
+
+// runSteps executes the sequential history; done reports that every step ran and
+// the model still agrees with the store.
+func (x *exec) runSteps() (err error, done bool) {
+	c, r, prop, d := x.c, x.r, x.prop, x.d
 	for i, s := range c.Steps {
 		fs, err := x.step(i, s)
 		if err != nil {
-			return pbt.Failf("harness", "step %d (%s): %v\n%s", i, s, err, x.trace())
+			return pbt.Failf("harness", "step %d (%s): %v\n%s", i, s, err, x.trace()), false
 		}
 		fs = append(fs, x.compareState(i, s)...)
 		if len(fs) == 0 {
@@ -56,15 +70,15 @@ func Execute(c Case, r *pbt.Rec, prop int) error {
 		// properties ends the case quietly
 		for _, f := range fs {
 			if owns(f, prop) {
-				return pbt.Failf(f.sig, "step %d (%s): %s\n%s", i, s, f.msg, x.trace())
+				return pbt.Failf(f.sig, "step %d (%s): %s\n%s", i, s, f.msg, x.trace()), false
 			}
 		}
 		r.Label("foreign:" + fs[0].sig)
-		return nil
+		return nil, false
 	}
 	d.Settle()
 	x.finish()
-	return nil
+	return nil, true
 }
 
 func validate(c Case) error {
@@ -110,6 +124,7 @@ type exec struct {
 
 	adversarial int
 	partial     int
+	pairMode    bool
 	throttled   bool
 	ntRead      bool
 	ntLock      bool
@@ -321,7 +336,11 @@ func (x *exec) noteFlush() {
 
 func (x *exec) finish() {
 	r := x.r
-	switch x.prop {
+	prop := x.prop
+	if x.pairMode {
+		prop = 0 // the pair spec has its own non-trivial rule
+	}
+	switch prop {
 	case 17:
 		if x.ntRead {
 			r.NT()
@@ -529,15 +548,17 @@ func (x *exec) compareWriteResp(s Step, obs Resp, exp Expect) *failure {
 }
 
 // compareState compares the DB with the model after a step.
-func (x *exec) compareState(i int, s Step) []*failure {
+func (x *exec) compareState(i int, s Step) []*failure { return x.compareStateWith(x.m, s) }
+
+func (x *exec) compareStateWith(xm *Model, s Step) []*failure {
 	var fs []*failure
-	for k := range x.m.Keys {
+	for k := range xm.Keys {
 		got, err := x.d.Lock(k)
 		if err != nil {
 			fs = append(fs, &failure{owners: []int{19}, sig: "getlock-error", msg: fmt.Sprintf("GetLock(key %d): %v", k, err)})
 			continue
 		}
-		want := x.m.Keys[k].Lock
+		want := xm.Keys[k].Lock
 		gs, ws := "none", "none"
 		if got != nil {
 			gs = lockString(k, got)
@@ -570,7 +591,7 @@ func (x *exec) compareState(i int, s Step) []*failure {
 	if err != nil {
 		return append(fs, &failure{owners: []int{17, 18, 19}, sig: "dump-error", msg: err.Error()})
 	}
-	ms := x.m.Snap()
+	ms := xm.Snap()
 	if !reflect.DeepEqual(nz(dump.Writes), nz(ms.Writes)) {
 		sig := "write-records-differ"
 		if s.IsMaint() {
@@ -582,7 +603,7 @@ func (x *exec) compareState(i int, s Step) []*failure {
 		fs = append(fs, &failure{owners: []int{19}, sig: "lock-cf-differs", msg: fmt.Sprintf("lock CF (iterator view) %v, model %v", dump.Locks, ms.Locks)})
 	}
 	// two writers of one key with overlapping [start, commit] must not both be committed
-	for k, mk := range x.m.Keys {
+	for k, mk := range xm.Keys {
 		_ = mk
 		type iv struct{ s, c uint64 }
 		var ivs []iv
